@@ -88,6 +88,12 @@ class World(object):
         ar.add_callback(done)
         self.outstanding.append(ar)
 
+    def lend_as_result_expired(self, k, form):
+        """the requester gives up at once (expiry 0): the late reply carries references nobody will ever look at"""
+        ar = self.b.async_request(self.consts.HANDLE_CALL, self.take_p, (k, form), ())
+        ar.set_expiry(0)
+        self.outstanding.append(ar)
+
     def drop(self, slot):
         self.slots.pop(slot, None)
 
@@ -105,7 +111,7 @@ class World(object):
             conn.serve(0)
         except Exception as e:
             self.errors.append(("serve raised", repr(e)))
-        self.outstanding = [ar for ar in self.outstanding if not ar._is_ready]
+        self.outstanding = [ar for ar in self.outstanding if not ar._is_ready and not ar.expired]
         return True
 
     def in_flight(self):
@@ -241,8 +247,8 @@ def run_history(ctx, rng, idx, script=None):
             if script is not None:
                 st = script[s]
             else:
-                op = rng.choice(["lend_arg", "lend_arg", "lend_res", "drop", "drop", "deliver_ab", "deliver_ba", "deliver_ab", "deliver_ba",
-                                 "back", "quiesce", "use"])
+                op = rng.choice(["lend_arg", "lend_arg", "lend_res", "lend_res_expired", "drop", "drop", "deliver_ab", "deliver_ba", "deliver_ab",
+                                 "deliver_ba", "back", "quiesce", "use"])
                 st = (op, rng.randrange(nobj), rng.choice(FORMS), rng.randrange(5))
             op, k, form, slot = st
             steps.append(st)
@@ -250,6 +256,8 @@ def run_history(ctx, rng, idx, script=None):
                 w.lend_as_argument(k, form, slot)
             elif op == "lend_res":
                 w.lend_as_result(k, form, slot)
+            elif op == "lend_res_expired":
+                w.lend_as_result_expired(k, form)
             elif op == "drop":
                 other = "A->B"
                 if slot in w.slots and w.net.frames_in_flight(other):
